@@ -141,11 +141,24 @@ Theorem C10_undefined_inline_condition_rejected :
 Proof. intros. cbn [sel_rejects]. now rewrite H. Qed.
 Print Assumptions C10_undefined_inline_condition_rejected.
 
+(* A directive use on a fragment definition is rejected (none of the directives known to these
+   schemas may stand at FRAGMENT_DEFINITION), wherever the definition stands relative to the
+   spreads that refer to it. *)
+Theorem C10_directive_on_fragment_definition_rejected :
+  forall S d n fr, In (n, fr) (d_frags d) -> fr_dirs fr <> [] -> doc_rejects S d = true.
+Proof.
+  intros S d n fr Hin Hd. unfold doc_rejects.
+  assert (H : existsb (fun nf => match fr_dirs (snd nf) with [] => false | _ => true end) (d_frags d) = true).
+  { apply existsb_exists. exists (n, fr). split; [exact Hin|]. simpl. destruct (fr_dirs fr); [contradiction|reflexivity]. }
+  rewrite H. rewrite !orb_true_r. reflexivity.
+Qed.
+Print Assumptions C10_directive_on_fragment_definition_rejected.
+
 (* ---- finding F10a (refutation): a fragment DEFINITION on an undefined type is accepted and is
    silently empty (pinned by TestParseExecutableError, which parses fragments on undefined types) ---- *)
 From GG.Properties Require C01.
 Definition f10a_doc : doc :=
-  mkDoc [mkOp OpQuery None [] [SFrag 1 1 []; SField 2 None 4 [] [] []]] [(1, mkFrag (Some 99) [SField 3 None 4 [] [] []])].
+  mkDoc [mkOp OpQuery None [] [SFrag 1 1 []; SField 2 None 4 [] [] []]] [(1, mkFrag (Some 99) [SField 3 None 4 [] [] []] [])].
 
 Example C10_refuted_fragment_on_undefined_type :
   doc_rejects C01.ex_schema f10a_doc = false /\
